@@ -35,8 +35,9 @@ class AvroHeader:
 
 
 class AvroBlock:
-    def __init__(self, records):
+    def __init__(self, records, torn_at=None):
         self.records = list(records)
+        self.torn_at = torn_at  # index in records before which the bytes of a partly encoded (refused) record sit in the block
         self.length = 16 + len(self.records)
 
     def __repr__(self):
@@ -75,10 +76,13 @@ def avro_accepts(it, t, v):
 
 
 class AvroWriter:
-    def __init__(self, it, fp, schema, codec="null"):
-        note("fastavro", "Writer writes the header at construction (and refuses a file that already has content unless opened 'a+'), buffers validated records, flush() writes the block; reader yields the flushed blocks' records")
-        self.it, self.fp, self.schema, self.codec = it, fp, schema, codec
+    def __init__(self, it, fp, schema, codec="null", validator=None):
+        note("fastavro", "Writer writes the header at construction (and refuses a file that already has content unless opened 'a+'); write() encodes the record field by field into the block buffer "
+             "(a field that matches no union branch raises and leaves the bytes of the fields before it in the block, which is then undecodable) unless validator=True, which validates the whole record first; "
+             "flush() writes the block; reader yields the flushed blocks' records")
+        self.it, self.fp, self.schema, self.codec, self.validator = it, fp, schema, codec, bool(validator)
         self.buffer = []
+        self.torn_at = None
         if [c for c in fp.content() if type(c).__name__ != "MagicSeg"]:
             # fastavro: a Writer on a file that already has content is an append, which needs the 'a+' mode
             raise PyRaise(ValueError("When appending to an avro file you must use the 'a+' mode, not just 'a'"))
@@ -89,16 +93,18 @@ class AvroWriter:
         if not isinstance(rec, dict):
             raise PyRaise(ValueError("record must be a mapping"))
         rec = dict(rec)
-        for f in self.schema.get("fields", []):
+        for k, f in enumerate(self.schema.get("fields", [])):
             v = rec.get(f["name"])
             ts = f["type"] if isinstance(f["type"], list) else [f["type"]]
             if isinstance(v, tuple) and len(v) == 2 and isinstance(v[0], str):
                 # fastavro "tuple notation" (branch name, value): the named union branch is used as it is, the value is NOT validated against it
                 if not any((t.get("type") if isinstance(t, dict) else t) == v[0] for t in ts):
+                    self._tear(k)
                     raise PyRaise(ValueError(f"no union branch named {v[0]!r} for field {f['name']!r}"))
                 rec[f["name"]] = v[1]
                 continue
             if not any(avro_accepts(it, t, v) for t in ts):
+                self._tear(k)
                 raise PyRaise(ValueError(f"{it.type_name(v)} value of field {f['name']!r} is not an example of the schema {ts!r}"))
         import datetime as _dtm
 
@@ -129,10 +135,16 @@ class AvroWriter:
                     raise Unsupported("symbolic long handed to the Avro timestamp-micros logical type")
         self.buffer.append(stored)
 
+    def _tear(self, k):
+        """the record is refused at its k-th field: without a validator the fields before it are already encoded in the block buffer"""
+        if k > 0 and not self.validator and self.torn_at is None:
+            self.torn_at = len(self.buffer)
+
     def flush(self):
-        if self.buffer:
-            self.fp.write(AvroBlock(self.buffer))
+        if self.buffer or self.torn_at is not None:
+            self.fp.write(AvroBlock(self.buffer, self.torn_at))
             self.buffer = []
+            self.torn_at = None
         self.fp.flush()
 
 
@@ -152,6 +164,9 @@ class AvroReaderModel:
         for b in self.blocks:
             if not isinstance(b, AvroBlock):
                 raise Unsupported("avro container with foreign segments")
+            if b.torn_at is not None:
+                # the bytes of a partly encoded record shift everything behind them: the block does not decode to the records written
+                raise PyRaise(IndexError("avro block holds the bytes of a partly encoded record (undecodable)"))
             out += [dict(r) for r in b.records]
         return iter(out)
 
@@ -521,7 +536,7 @@ def install(it):
 
     it.models[_dtm.datetime.now] = m_now
     it.loader.module_models["fastavro"] = FastavroModel
-    it.models[FastavroModel.write.Writer] = lambda it_, fp, schema, codec="null", **kw: AvroWriter(it_, fp, schema, codec)
+    it.models[FastavroModel.write.Writer] = lambda it_, fp, schema, codec="null", validator=None, **kw: AvroWriter(it_, fp, schema, codec, validator)
     it.models[FastavroModel.reader] = lambda it_, fp, *a, **kw: AvroReaderModel(fp)
     it.models[FastavroModel.parse_schema] = lambda it_, schema, *a, **kw: schema
 
